@@ -405,6 +405,10 @@ def split_histories(records, reset_name="reset"):
         r = dict(r)
         r.pop("seq", None)
         if r.get("e") == reset_name:
+            if len(r) > 1:                      # a reset that carries data: keep it as an "end" record
+                e = dict(r)
+                e["e"] = "end"
+                cur.append(e)
             out.append(cur)
             cur = []
         else:
